@@ -251,7 +251,7 @@ func c07VarintFrame(typ, declared uint64, payload []byte) []byte {
 
 func TestVerif_C07_h3frames(t *testing.T) {
 	s := verifh.New(t, "C07", "h3frames",
-		"HTTP/3 frame matrix: (a) request stream: frame type in {0x0..0xe, 0x21 GREASE, 0x40, 2^30, 2^62-1} x declared length in {0, 1, exact, exact+1 (stream ends early), 2^14, 2^30, 2^62-1} x position (before HEADERS, between HEADERS and DATA, after DATA, after trailers) with a QPACK block / 5 data bytes / garbage as payload; (b) control stream on a fresh connection: first frame of each type x length, SETTINGS identifier x value (0x8 and 0x33 with 0/1/2, HTTP/2 identifiers 0x2..0x5, 0x1 / 0x6 / 0x7 with boundary values, duplicates, an odd-length payload), then GOAWAY / MAX_PUSH_ID / CANCEL_PUSH ids at their boundaries, a second SETTINGS, DATA / HEADERS on the control stream; (c) unidirectional streams of type control (duplicate) / push / QPACK encoder / QPACK decoder / GREASE / 0x40 / 2^62-1 with garbage, closed or left open; oracle: the call returns response-or-error within the watchdog, no panic; a follow-up request on a fresh well-behaved connection; every case non-trivial")
+		"HTTP/3 frame matrix: (a) request stream: frame type in {0x0..0xe, 0x21 GREASE, 0x40, 2^30, 2^62-1} x declared length in {0, 1, exact, exact+1 (stream ends early), 2^14, 2^30, 2^62-1} x position (before HEADERS, between HEADERS and DATA, after DATA, after trailers) with a QPACK block / 5 data bytes / garbage as payload; (b) control stream on a fresh connection: first frame of each type x length, SETTINGS identifier x value (0x8 and 0x33 with 0/1/2, HTTP/2 identifiers 0x2..0x5, 0x1 / 0x6 / 0x7 with boundary values, duplicates, an odd-length payload), then GOAWAY / MAX_PUSH_ID / CANCEL_PUSH ids at their boundaries, a second SETTINGS, DATA / HEADERS on the control stream; (c) unidirectional streams of type control (duplicate) / push / QPACK encoder / QPACK decoder / GREASE / 0x40 / 2^62-1 with garbage, closed or left open; (d) staged interleavings: control + 1..2 more streams of type control / push / QPACK encoder / QPACK decoder, all type bytes first and the frames 40 ms later; oracle: the call returns response-or-error within the watchdog, no panic; a follow-up request on a fresh well-behaved connection; every case non-trivial")
 	probe := C().EnableForceHTTP3()
 	if probe.t3 == nil {
 		t.Fatalf("HTTP/3 not available on this toolchain: no tests to run")
@@ -424,6 +424,23 @@ func TestVerif_C07_h3frames(t *testing.T) {
 			s.Count("uni-stream")
 			runOne(c07H3Script{response: resp, reset: -1, control: okCtl, extraUni: [][]byte{b}}, true,
 				fmt.Sprintf("unidirectional stream type %#x with payload #%d (%d bytes, %s)", ty, gi, len(garbage), map[bool]string{true: "closed", false: "left open"}[len(b)%2 == 0]))
+		}
+	}
+	// (d) round 5: interleavings of several unidirectional streams of one type — the peer opens all of
+	// them (its control stream included), writes only the stream-type byte of each, pauses, then writes
+	// the frames: every stream is past the client's "only one of this type" guard before any of them
+	// delivers its first frame (2 or 3 streams of each critical type, with a SETTINGS frame / garbage)
+	for _, ty := range []uint64{0x0, 0x1, 0x2, 0x3} {
+		for _, copies := range []int{1, 2} {
+			for gi, garbage := range [][]byte{c07H3Frame(0x4, nil), c07H3Frame(0x4, setting(0x8, 1)), {0x3f, 0x3f}} {
+				var extra [][]byte
+				for k := 0; k < copies; k++ {
+					extra = append(extra, append(quicvarint.Append(nil, ty), garbage...))
+				}
+				s.Count("uni-stream-staged")
+				runOne(c07H3Script{response: resp, reset: -1, control: okCtl, extraUni: extra, stagedUni: true}, true,
+					fmt.Sprintf("staged unidirectional streams: control + %d more of type %#x, type bytes first, then (40 ms later) payload #%d on each", copies, ty, gi))
+			}
 		}
 	}
 	// follow-up on a fresh, well-behaved connection
